@@ -465,3 +465,36 @@ func (p *Program) InlineBool(info *types.Info, call *ast.CallExpr) *facts.Inline
 	}
 	return ib
 }
+
+// Stable renders a node like ExprStr, but with every identifier that names a local variable, parameter, receiver or
+// named result replaced by its type in angle quotes (`‹*eval.PolicyEngine›.podsMap[‹string›]`). Constructs built
+// this way - and the exception / justification tables keyed by them - do not change when a local is renamed.
+func Stable(info *types.Info, e ast.Node) string {
+	if e == nil {
+		return ""
+	}
+	type sv struct {
+		id   *ast.Ident
+		name string
+	}
+	var saved []sv
+	q := func(pk *types.Package) string { return pk.Name() }
+	ast.Inspect(e, func(n ast.Node) bool {
+		id, ok := n.(*ast.Ident)
+		if !ok || id.Name == "_" {
+			return true
+		}
+		v, ok := info.ObjectOf(id).(*types.Var)
+		if !ok || v.IsField() || v.Pkg() == nil || v.Parent() == nil || v.Parent() == v.Pkg().Scope() {
+			return true
+		}
+		saved = append(saved, sv{id, id.Name})
+		id.Name = "‹" + types.TypeString(v.Type(), q) + "›"
+		return true
+	})
+	s := ExprStr(e)
+	for _, x := range saved {
+		x.id.Name = x.name
+	}
+	return s
+}
